@@ -112,15 +112,92 @@ func DG7(images [][]byte) []byte {
 	return tlv(0x67, inner)
 }
 
-// DG11 additional personal details.
+// DG11 additional personal details (9303-10 table 71): a seeded subset of the defined objects; other names either in
+// the conformant A0 template (count + repeated 5F0F) or, as seen on real documents, as 5F0F objects directly under the root.
 func DG11(r *core.Rng) []byte {
-	name := randStr(r, mrzAlpha, r.Range(2, 10)) + "<<" + randStr(r, mrzAlpha, r.Range(2, 10))
-	return tlv(0x6B, cat(tlv(0x5C, []byte{0x5F, 0x0E, 0x5F, 0x10}), tlv(0x5F0E, []byte(name)), tlv(0x5F10, []byte(randStr(r, mrzAlnum, r.Range(1, 14))))))
+	name := func() string { return randStr(r, mrzAlpha, r.Range(2, 10)) + "<<" + randStr(r, mrzAlpha, r.Range(2, 10)) }
+	var tags []byte
+	var body []byte
+	add := func(tag int, val []byte) {
+		tags = append(tags, byte(tag>>8), byte(tag))
+		body = append(body, tlv(tag, val)...)
+	}
+	add(0x5F0E, []byte(name()))
+	switch r.Intn(4) {
+	case 0: // conformant other names
+		n := r.Range(1, 3)
+		inner := tlv(0x02, []byte{byte(n)})
+		for i := 0; i < n; i++ {
+			inner = append(inner, tlv(0x5F0F, []byte(name()))...)
+		}
+		tags = append(tags, []byte{0x5F, 0x0F}...)
+		if r.Bool() {
+			tags = append(tags[:len(tags)-2], 0xA0)
+		}
+		body = append(body, tlv(0xA0, inner)...)
+	case 1: // other names directly under the root
+		for i, n := 0, r.Range(1, 2); i < n; i++ {
+			body = append(body, tlv(0x5F0F, []byte(name()))...)
+		}
+		tags = append(tags, 0x5F, 0x0F)
+	}
+	add(0x5F10, []byte(randStr(r, mrzAlnum, r.Range(1, 14))))
+	if r.Bool() {
+		add(0x5F2B, []byte("19740812"))
+	}
+	if r.Bool() {
+		add(0x5F11, []byte(randStr(r, mrzAlpha, 6)+"<"+randStr(r, mrzAlpha, 4)))
+	}
+	if r.Bool() {
+		add(0x5F42, []byte("STREET<"+randStr(r, mrzAlnum, 5)+"<CITY"))
+	}
+	if r.Chance(1, 3) {
+		add(0x5F12, []byte("0123456789"))
+	}
+	if r.Chance(1, 3) {
+		add(0x5F13, []byte(randStr(r, mrzAlpha, 8)))
+	}
+	if r.Chance(1, 4) {
+		add(0x5F14, []byte("DR"))
+	}
+	if r.Chance(1, 4) {
+		add(0x5F17, []byte(randStr(r, mrzAlnum, 9)+"<"+randStr(r, mrzAlnum, 9)))
+	}
+	return tlv(0x6B, cat(tlv(0x5C, tags), body))
 }
 
-// DG12 additional document details.
+// DG12 additional document details (9303-10 table 72), a seeded subset incl. other persons in the A0 template.
 func DG12(r *core.Rng) []byte {
-	return tlv(0x6C, cat(tlv(0x5C, []byte{0x5F, 0x19, 0x5F, 0x26}), tlv(0x5F19, []byte(randStr(r, mrzAlpha, r.Range(3, 20)))), tlv(0x5F26, []byte("20200131"))))
+	var tags []byte
+	var body []byte
+	add := func(tag int, val []byte) {
+		tags = append(tags, byte(tag>>8), byte(tag))
+		body = append(body, tlv(tag, val)...)
+	}
+	add(0x5F19, []byte(randStr(r, mrzAlpha, r.Range(3, 20))))
+	add(0x5F26, []byte("20200131"))
+	if r.Chance(1, 3) {
+		n := r.Range(1, 3)
+		inner := tlv(0x02, []byte{byte(n)})
+		for i := 0; i < n; i++ {
+			inner = append(inner, tlv(0x5F1A, []byte(randStr(r, mrzAlpha, 5)+"<<"+randStr(r, mrzAlpha, 4)))...)
+		}
+		tags = append(tags, 0x5F, 0x1A)
+		body = append(body, tlv(0xA0, inner)...)
+	}
+	if r.Bool() {
+		add(0x5F1B, []byte(randStr(r, mrzAlnum, r.Range(1, 30))))
+	}
+	if r.Chance(1, 3) {
+		add(0x5F1C, []byte(randStr(r, mrzAlnum, 8)))
+	}
+	if r.Chance(1, 3) {
+		add(0x5F55, []byte("20200131093000"))
+	}
+	if r.Chance(1, 3) {
+		add(0x5F56, []byte(randStr(r, mrzAlnum, 12)))
+	}
+	return tlv(0x6C, cat(tlv(0x5C, tags), body))
 }
 
 // DG13 optional details (opaque).
@@ -128,8 +205,12 @@ func DG13(r *core.Rng, n int) []byte { return tlv(0x6D, tlv(0x04, r.Bytes(n))) }
 
 // DG16 persons to notify.
 func DG16(r *core.Rng) []byte {
-	p := tlv(0xA1, cat(tlv(0x5F50, []byte("20200131")), tlv(0x5F51, []byte(randStr(r, mrzAlpha, 6)+"<<"+randStr(r, mrzAlpha, 4))), tlv(0x5F52, []byte("12345678")), tlv(0x5F53, []byte("STREET<CITY"))))
-	return tlv(0x70, cat(tlv(0x02, []byte{1}), p))
+	n := r.Range(1, 3)
+	body := tlv(0x02, []byte{byte(n)})
+	for i := 1; i <= n; i++ {
+		body = append(body, tlv(0xA0+i, cat(tlv(0x5F50, []byte("20200131")), tlv(0x5F51, []byte(randStr(r, mrzAlpha, 6)+"<<"+randStr(r, mrzAlpha, 4))), tlv(0x5F52, []byte("12345678")), tlv(0x5F53, []byte("STREET<CITY"))))...)
+	}
+	return tlv(0x70, body)
 }
 
 // DG15 wraps the AA SubjectPublicKeyInfo.
